@@ -270,6 +270,13 @@ func (f *ndFunc) ownerOf(p string) string {
 
 // initial domain of a path never touched so far in the function.
 func (f *ndFunc) initial(p string, rootTypes map[string]types.Type) []ndMember {
+	if strings.HasSuffix(p, ".#") {
+		owner := strings.TrimSuffix(p, ".#")
+		if t, ok := rootTypes[owner]; ok && hasIsNTT(t) {
+			return []ndMember{{kind: 'S', sym: owner}}
+		}
+		return []ndMember{{kind: 'T'}}
+	}
 	owner := f.ownerOf(p)
 	if owner == "" {
 		return []ndMember{{kind: 'T'}}
@@ -727,7 +734,7 @@ func (f *ndFunc) run() {
 	ownerTypes := rootTypes
 	ast.Inspect(f.fd.Body, func(n ast.Node) bool {
 		se, ok := n.(*ast.SelectorExpr)
-		if !ok || se.Sel.Name != "Value" {
+		if !ok || (se.Sel.Name != "Value" && se.Sel.Name != "IsNTT" && se.Sel.Name != "MetaData" && se.Sel.Name != "Copy") {
 			return true
 		}
 		if p, ok := f.path(se.X, 0); ok {
@@ -989,6 +996,30 @@ func (f *ndFunc) run() {
 				}
 			}
 		}
+		// element-level copy: values and flag
+		if fn != nil && name == "Copy" && recvExpr != nil && len(call.Args) == 1 {
+			tr, ok1 := f.info.Types[recvExpr]
+			ta, ok2 := f.info.Types[call.Args[0]]
+			if ok1 && ok2 && hasIsNTT(tr.Type) && hasIsNTT(ta.Type) {
+				dp, okd := f.path(recvExpr, 0)
+				sp, oks := f.path(call.Args[0], 0)
+				if okd && oks {
+					subs := []string{".Value[0]", ".Value[1]", ".Value[2]"}
+					if o, _, _ := types.LookupFieldOrMethod(tr.Type, true, nil, "Value"); o != nil && isPolyLike(o.Type()) {
+						subs = []string{".Value"}
+					}
+					vals := map[string][]ndMember{}
+					for _, k := range append(subs, ".#") {
+						vals[k] = stamp(s, lookup(s, sp+k))
+					}
+					kill(s, dp)
+					for k, ms := range vals {
+						s.env[dp+k] = ndNorm(ms)
+					}
+					return
+				}
+			}
+		}
 		// <x>, <x>IsNTT pairs
 		if fn != nil {
 			if fi := ndFlagParam(fn); fi >= 0 && fi < len(call.Args) {
@@ -1106,6 +1137,106 @@ func (f *ndFunc) run() {
 			}
 		}
 	}
+	// the exit condition is demanded of the outputs only (inputs may be consumed as scratch)
+	outNames := map[string]bool{}
+	if fn, ok := f.info.Defs[f.fd.Name].(*types.Func); ok {
+		sig := fn.Type().(*types.Signature)
+		for i := range outputParams(sig) {
+			outNames[sig.Params().At(i).Name()] = true
+		}
+	}
+	exitCheck := func(s *ndState, ret *ast.ReturnStmt) {
+		owners := map[string]bool{}
+		for p := range s.env {
+			if i := strings.Index(p, ".Value"); i > 0 {
+				owners[p[:i]] = true
+			} else if strings.HasSuffix(p, ".#") {
+				owners[strings.TrimSuffix(p, ".#")] = true
+			}
+		}
+		for owner := range owners {
+			if !isParamRoot(owner) || !outNames[ndRoot(owner)] {
+				continue
+			}
+			if t, ok := ownerTypes[owner]; !ok || !hasIsNTT(t) {
+				continue
+			}
+			flags := lookup(s, owner+".#")
+			for p, doms := range s.env {
+				if !strings.HasPrefix(p, owner+".Value") {
+					continue
+				}
+				decided := false
+				var bad [2]ndMember
+				isBad := false
+				for _, d := range doms {
+					if !ndFeasible(d, s.facts) {
+						continue
+					}
+					for _, g := range flags {
+						if !ndFeasible(g, s.facts) || !ndCompatible(d, g) {
+							continue
+						}
+						both := map[string]bool{}
+						for k, v := range s.facts {
+							both[k] = v
+						}
+						for _, m := range []ndMember{d, g} {
+							if m.facts != "" {
+								for _, kv := range strings.Split(m.facts, ";") {
+									both[kv[:len(kv)-2]] = kv[len(kv)-1] == '1'
+								}
+							}
+						}
+						rd, rg := ndResolve(d, both), ndResolve(g, both)
+						if rd == 0 && rg == 0 && d.kind == 'S' && g.kind == 'S' && d.sym == g.sym {
+							if d.sym != owner {
+								decided = true
+							}
+							continue
+						}
+						if rd == 0 || rg == 0 {
+							continue
+						}
+						decided = true
+						if rd != rg {
+							isBad = true
+							bad = [2]ndMember{d, g}
+						}
+					}
+				}
+				if !decided {
+					continue
+				}
+				key := fmt.Sprintf("NTTDOM:%s#exit(%s)", f.fkey, p)
+				dom := map[byte]string{'N': "NTT", 'C': "coefficient"}
+				if isBad {
+					if !f.seen[key+"!"] {
+						f.seen[key+"!"] = true
+						both := map[string]bool{}
+						for _, m := range []ndMember{bad[0], bad[1]} {
+							if m.facts != "" {
+								for _, kv := range strings.Split(m.facts, ";") {
+									both[kv[:len(kv)-2]] = kv[len(kv)-1] == '1'
+								}
+							}
+						}
+						for k, v := range s.facts {
+							both[k] = v
+						}
+						f.out = append(f.out, withProps(violOb("NTTDOM", key, f.c.Rel(ret.Pos()),
+							fmt.Sprintf("%s returns with %s in the %s domain while %s.IsNTT says %s (on the path where %s)",
+								f.fkey, p, dom[ndResolve(bad[0], both)], owner, dom[ndResolve(bad[1], both)], factsString(both))), bufProps(f.fkey)...))
+					}
+					continue
+				}
+				if !f.seen[key] && !f.seen[key+"!"] {
+					f.seen[key] = true
+					f.out = append(f.out, withProps(okOb("NTTDOM", key, f.c.Rel(ret.Pos()), "on return the domain of the polynomial and the IsNTT flag of its owner agree on every decided path", true), bufProps(f.fkey)...))
+				}
+			}
+		}
+	}
 	rangeVars := map[*ast.Ident]bool{}
 	ast.Inspect(f.fd.Body, func(n ast.Node) bool {
 		if rs, ok := n.(*ast.RangeStmt); ok {
@@ -1130,6 +1261,18 @@ func (f *ndFunc) run() {
 			}
 			for i, l := range x.Lhs {
 				transferExpr(s, l)
+				if fp, kind := f.flagTarget(l); kind != 0 {
+					ms := []ndMember{{kind: 'T'}}
+					if len(x.Lhs) == len(x.Rhs) {
+						if kind == 1 {
+							ms = f.flagValue(x.Rhs[i], func(p string) []ndMember { return lookup(s, p) })
+						} else {
+							ms = f.metaValue(x.Rhs[i], func(p string) []ndMember { return lookup(s, p) })
+						}
+					}
+					set(s, fp, stamp(s, ms))
+					continue
+				}
 				if id, ok := unparen(l).(*ast.Ident); ok {
 					o := f.info.Defs[id]
 					if o == nil {
@@ -1194,6 +1337,14 @@ func (f *ndFunc) run() {
 			}
 			return s
 		case *ast.DeferStmt, *ast.GoStmt:
+			return s
+		case *ast.ReturnStmt:
+			for _, r := range x.Results {
+				transferExpr(s, r)
+			}
+			if record && !f.errorReturn(x) {
+				exitCheck(s, x)
+			}
 			return s
 		case *ast.Ident:
 			// go/cfg puts the key and value of a range loop into the loop header as bare expressions
@@ -1265,7 +1416,18 @@ func (f *ndFunc) run() {
 		}
 		if len(b.Succs) == 2 && len(b.Nodes) > 0 {
 			if cond, ok := b.Nodes[len(b.Nodes)-1].(ast.Expr); ok {
-				if k, v, ok := f.condFact(cond); ok {
+				k, v, ok := f.condFact(cond)
+				if ok && strings.HasSuffix(k, ".IsNTT") {
+					// the flag of an element the function assigns: the test is about its current value
+					owner := strings.TrimSuffix(k, ".IsNTT")
+					if f.flagW[owner] || f.flagW[ndRoot(owner)] {
+						ok = false
+						if ms := lookup(s, owner+".#"); len(ms) == 1 && ms[0].kind == 'S' && !f.flagW[ms[0].sym] && !f.flagW[ndRoot(ms[0].sym)] {
+							k, ok = ms[0].sym+".IsNTT", true
+						}
+					}
+				}
+				if ok {
 					t, e := s.clone(), s.clone()
 					t.facts[k] = v
 					e.facts[k] = !v
@@ -1334,10 +1496,10 @@ func (f *ndFunc) killMentioned(s *ndState, fl *ast.FuncLit, kill func(*ndState, 
 
 func init() {
 	core.Register(&core.Rule{Name: "NTTDOM", Props: []string{"C03", "C04", "C05", "C06", "C11", "C12", "C13", "C14", "C16", "C18", "C20"},
-		Doc: "abstract interpretation of the domain (NTT / coefficient / as-the-owner's-IsNTT-flag-says) of every polynomial path over go/cfg with branch facts: no forward transform of a value already in the NTT domain, no inverse transform of a coefficient-domain value, no coefficient-domain automorphism of an NTT value or vice versa, no polynomial passed with a contradicting <x>IsNTT literal",
+		Doc: "abstract interpretation of the domain (NTT / coefficient / as-the-owner's-IsNTT-flag-says) of every polynomial path over go/cfg with branch facts: no forward transform of a value already in the NTT domain, no inverse transform of a coefficient-domain value, no coefficient-domain automorphism of an NTT value or vice versa, no polynomial passed with a contradicting <x>IsNTT literal, and on every successful return the domain of an output's polynomials agrees with the IsNTT flag the function leaves on it (flag assignments, metadata copies and element copies are tracked in the same lattice)",
 		Run: func(c *core.Ctx) []ob {
 			out := scanNTTDom(c)
-			out = append(out, control(c, "NTTDOM", scanNTTDom, "fixEvaluator).TraceOne")...)
+			out = append(out, control(c, "NTTDOM", scanNTTDom, "fixEvaluator).TraceOne", "fixEvaluator).LeaveNTT#exit")...)
 			out = append(out, core.Floor("NTTDOM", nil, "transform sites with a known source domain", c.Stats["nttdom_sites"], 10)...)
 			return out
 		}})
@@ -1348,4 +1510,125 @@ func exprString0(n ast.Node) string {
 		return exprString(e)
 	}
 	return ""
+}
+
+// ndCompatible: the facts two members were produced under do not contradict each other.
+func ndCompatible(a, b ndMember) bool {
+	if a.facts == "" || b.facts == "" {
+		return true
+	}
+	fa := map[string]bool{}
+	for _, kv := range strings.Split(a.facts, ";") {
+		fa[kv[:len(kv)-2]] = kv[len(kv)-1] == '1'
+	}
+	return ndFeasible(b, fa)
+}
+
+// errorReturn: a return that reports a failure (outputs are unspecified then).
+func (f *ndFunc) errorReturn(ret *ast.ReturnStmt) bool {
+	if n := len(ret.Results); n > 0 {
+		last := ret.Results[n-1]
+		if tv, ok := f.info.Types[last]; ok && isErrorType(tv.Type) && !isNilIdent(last) {
+			return true
+		}
+		return false
+	}
+	// bare return under `if err != nil`
+	pm := parentMapCached(f.fd)
+	for p := pm[ast.Node(ret)]; p != nil; p = pm[p] {
+		if is, ok := p.(*ast.IfStmt); ok {
+			if len(errVarsTestedNotNil(f.info, is.Cond)) > 0 {
+				return true
+			}
+		}
+	}
+	return false
+}
+
+// flagTarget: an assignment target that sets the IsNTT flag (1) or the whole metadata (2) of an element.
+func (f *ndFunc) flagTarget(l ast.Expr) (string, int) {
+	l = unparen(l)
+	if st, ok := l.(*ast.StarExpr); ok {
+		l = unparen(st.X)
+	}
+	se, ok := l.(*ast.SelectorExpr)
+	if !ok {
+		return "", 0
+	}
+	kind := 0
+	switch se.Sel.Name {
+	case "IsNTT":
+		kind = 1
+	case "MetaData":
+		kind = 2
+	default:
+		return "", 0
+	}
+	p, ok := f.path(se.X, 0)
+	if !ok {
+		return "", 0
+	}
+	return p + ".#", kind
+}
+
+func (f *ndFunc) flagValue(r ast.Expr, look func(string) []ndMember) []ndMember {
+	r = unparen(r)
+	if id, ok := r.(*ast.Ident); ok {
+		switch id.Name {
+		case "true":
+			return []ndMember{{kind: 'N'}}
+		case "false":
+			return []ndMember{{kind: 'C'}}
+		}
+	}
+	if se, ok := r.(*ast.SelectorExpr); ok && se.Sel.Name == "IsNTT" {
+		if p, ok := f.path(se.X, 0); ok {
+			return look(p + ".#")
+		}
+	}
+	if ndIsPathExpr(r) {
+		// a local copy of a flag: b := x.IsNTT
+		if p, ok := f.path(r, 0); ok && strings.HasSuffix(p, ".IsNTT") {
+			return look(strings.TrimSuffix(p, ".IsNTT") + ".#")
+		}
+	}
+	return []ndMember{{kind: 'T'}}
+}
+
+func (f *ndFunc) metaValue(r ast.Expr, look func(string) []ndMember) []ndMember {
+	r = unparen(r)
+	if st, ok := r.(*ast.StarExpr); ok {
+		r = unparen(st.X)
+	}
+	if u, ok := r.(*ast.UnaryExpr); ok && u.Op == token.AND {
+		r = unparen(u.X)
+	}
+	switch x := r.(type) {
+	case *ast.CompositeLit:
+		for _, el := range x.Elts {
+			if kv, ok := el.(*ast.KeyValueExpr); ok {
+				if id, ok := kv.Key.(*ast.Ident); ok && id.Name == "IsNTT" {
+					return f.flagValue(kv.Value, look)
+				}
+			}
+		}
+		if len(x.Elts) == 0 || func() bool { _, ok := x.Elts[0].(*ast.KeyValueExpr); return ok }() {
+			return []ndMember{{kind: 'C'}}
+		}
+	case *ast.SelectorExpr:
+		if x.Sel.Name == "MetaData" {
+			if p, ok := f.path(x.X, 0); ok {
+				return look(p + ".#")
+			}
+		}
+	case *ast.CallExpr:
+		if se, ok := unparen(x.Fun).(*ast.SelectorExpr); ok && se.Sel.Name == "CopyNew" {
+			if me, ok := unparen(se.X).(*ast.SelectorExpr); ok && me.Sel.Name == "MetaData" {
+				if p, ok := f.path(me.X, 0); ok {
+					return look(p + ".#")
+				}
+			}
+		}
+	}
+	return []ndMember{{kind: 'T'}}
 }
